@@ -28,8 +28,11 @@ def has_quantifier(t):
     r = _hq.get(k)
     if r is None:
         r = _has_q(t, set())
-        _hq[k] = r
-    return r
+        if len(_hq) > 300000:
+            _hq.clear()
+        _hq[k] = (r, t)       # keep the term alive: AST ids are recycled after collection
+        return r
+    return r[0]
 
 
 def _has_q(t, seen):
@@ -138,7 +141,8 @@ class Ctx:
             if not t:
                 raise PathEnd()
             return
-        t = z3.simplify(t)
+        from .pv import ssimp
+        t = ssimp(t)
         if z3.is_true(t):
             return
         if z3.is_false(t):
@@ -186,8 +190,9 @@ class Ctx:
         """Decide a boolean; forks only when both outcomes are feasible."""
         if isinstance(c, bool):
             return c
+        from .pv import ssimp
         t = c.t if hasattr(c, 't') else c
-        t = z3.simplify(t)
+        t = ssimp(t)
         if z3.is_true(t):
             return True
         if z3.is_false(t):
